@@ -367,6 +367,11 @@ func (in *Interp) elem(st *State, s Slice, i int) Value {
 
 func (in *Interp) loadPtr(st *State, p Ptr, pos token.Pos) Value {
 	in.logAccess(st, p.Obj, p.Path, false, pos)
+	for _, r := range st.recycled {
+		if r == p.Obj {
+			panic(endPath{kind: "use-after-recycle", msg: "read of a receive buffer after it was returned to the pool", pos: pos})
+		}
+	}
 	if p.Sym == nil {
 		return st.load(p)
 	}
